@@ -1,5 +1,29 @@
 # Per-property configuration of bin/check: Lean modules holding the property theorems, level, notes.
 PROPS = {
+    "C16": {
+        "lean": ["Knut.Properties.C16"],
+        "level": "proof",
+        "claim": "PARTIAL proof (one clause is false on the code and recorded as known finding) + byte-exact correspondence. Lean theorems over the model of `knut transcode -v V` "
+                 "(Sort, ComputePrices, check, Valuate with daily value adjustments, then beancount.Transcode as an entry list and its text), for ALL journals and valuation commodities on which "
+                 "the command succeeds: C16_balanced (every emitted transaction sums to exactly 0 in V; from the Paired invariant through sorting, valuation and adjustments), "
+                 "C16_chronological (entry dates never decrease), C16_open_before_use_partial (every account used by a posting is open on the day of use — an open dated on or before it that no "
+                 "close before that day follows — except the generated valuation account `Income:<path>` of a value adjustment; proved from the checker having accepted plus an invariant tying "
+                 "Valuate's positions to the checker's: a position still held belongs to an open account), C16_openOn_meaning, C16_not_after_close, C16_tx_bijection (emitted transactions are a "
+                 "permutation of the valued transactions of the processed journal), C16_valued_transactions (those are the user's transactions, valued and otherwise unchanged, plus the value "
+                 "adjustments), wf_ofList. The full open-before-use clause is FALSE on the code: C16_valuation_account_not_opened is the decided witness (known finding valuation-account-not-opened). "
+                 "Tie: `knut transcode` (subprocess) compared BYTE FOR BYTE with the model text; the real output is read by a line-based beancount reader and all four invariants are evaluated on it "
+                 "twice: in Go (model-free) and by the Lean predicates BeancountSpec.balanced/chronological/lifecycleOK/sameTxs.",
+        "note": "Trusted: Lean kernel; axioms propext, Classical.choice, Quot.sound; sort.Slice modelled as a stable sort (transactions comparing equal print identically); sequential pipeline "
+                "semantics (C19 covers the concurrent realisation); Go regexp `[^a-zA-Z]` modelled as a per-rune replacement; the harness' beancount reader; accrual-annotated transactions are "
+                "not generated here (C10 proves each expansion is paired). PARTIAL: C16_open_before_use_partial excludes the generated valuation accounts (real defect, golden test enshrines it).",
+        "rule": "lifecycle journals (2-8 accounts incl. nested and Unicode ones, 1-9 days over spans of 0-400 days plus extra price-only days, several commodities, zero/negative/many-decimal "
+                "amounts) with price declarations (direct, inverse, chained; re-priced on later days so that value adjustments occur) x valuation commodity (incl. names with digits / non-ASCII "
+                "letters for the X-replacement, lower case); tie-rich: equal descriptions per day, a transaction followed by its reversal, exact duplicates; user accounts under the "
+                "`Equity:Valuation:` prefix (synthesised opens). Malformed stream: lifecycle mutations, dropped/zero prices, unpriced commodities, missing/empty/invalid -v (must fail cleanly, "
+                "empty stdout, model agrees). Fixed witness journal of the known finding. class = (outcome, feature signature, valuation, transaction-count bucket, size bucket).",
+        "assumptions": ["accepted journals with sufficient prices (the command succeeds); transactions are posting pairs (everything the loader builds)"],
+        "trusted": ["known finding valuation-account-not-opened: generated valuation accounts are never opened (C16_valuation_account_not_opened)"],
+    },
     "C06": {
         "lean": ["Knut.Properties.C06"],
         "level": "proof",
@@ -16,7 +40,7 @@ PROPS = {
         "assumptions": [],
     },
     "C05": {
-        "lean": ["Knut.Properties.C05"],
+        "lean": ["Knut.Properties.C05", "Knut.Properties.C05Verdict"],
         "level": "proof",
         "claim": "PARTIAL proof + metamorphic correspondence. Proved for all directive lists and all permutations of them: ofList_spec (the builder's days are sorted by date and each day holds "
                  "exactly the directives of its date, per kind, in input order), C05_same_dates, C05_same_day_content (per day and kind the contents are permutations of each other), "
@@ -32,7 +56,7 @@ PROPS = {
         "assumptions": ["journals with two prices for one commodity pair on one day are not generated (excluded by the property)"],
     },
     "C03": {
-        "lean": ["Knut.Properties.C03"],
+        "lean": ["Knut.Properties.C03", "Knut.Properties.C03Bound"],
         "level": "proof",
         "claim": "PARTIAL proof + full correspondence + exact monitor. Proved for all journals/days on the model of ComputePrices/Valuate: C03_flow_valued_at_booking_day (every booking is "
                  "valued as quantity if in V, else Truncate8(quantity x price of its own day)), C03_missing_price_is_error / C03_missing_price_fails_day (a needed absent price fails the day: no number), "
@@ -276,6 +300,34 @@ PROPS = {
         "assumptions": ["stage closures share no mutable state other than the item handed over (checked by the race detector runs, not proved)",
                         "the conc pool records the first error before cancelling the context (pinned source, sourcegraph/conc)"],
         "timeout": {"quick": 900, "thorough": 3000},
+    },
+    "C15": {
+        "lean": ["Knut.Properties.C15"],
+        "level": "proof",
+        "claim": "PARTIAL proof + full correspondence. Lean theorems over a model of lib/syntax/bayes (Update/update/tokenize/Infer/inferAccount/scoreCandidate, count tables as "
+                 "association lists) and of inferRunner.execute (train on every reachable file, Infer on the target tree, syntax.FormatFile), proved for EVERY score function and comparison "
+                 "(the float log-sum is an abstract parameter) and all training/target journals and placeholder names: C15_only_placeholder / C15_only_bookings (only booking account fields "
+                 "whose text is the placeholder change), C15_candidate_from_training (each replacement is a credit/debit account of a non-macro, non-placeholder training booking), "
+                 "C15_differs_from_other (it differs from the other account, as updated; an edited booking never has equal sides), C15_no_candidate_unchanged, C15_candidate_replaced, "
+                 "C15_viewsOK (the monitor predicate holds of the model), C15_deterministic / _files / _booking (any permutation of the training transactions resp. files gives the same output), "
+                 "C15_token_walk_irrelevant + C15_equiv_same_choice + C15_tables_are_counts (map iteration orders do not matter: the tables are counts over the multiset of update calls and the "
+                 "candidates are visited sorted), C15_output_is_format_modulo_accounts / C15_output_shape (output = formatter run on the edited fields: same gaps, fields related by viewsOK, padding "
+                 "implied by the new accounts), C15_no_new_panic. PARTIAL: 'the result parses' is proved only as C15_output_parses_partial (every written account text is the Extract() of a non-macro "
+                 "account node of a parsed training file); the re-parse itself is decided on every run on the REAL output (real parser and parser model). Tie: bayes.NewModel/Update/Infer + "
+                 "syntax.FormatFile in-process and `knut infer [-a] -t TRAINING TARGET` / `-i` as subprocess are compared byte for byte with the model instantiated with the exact rational score "
+                 "(product of count ratios); the real count tables (read by reflection) are compared with the model's; the Lean predicate inferOK is evaluated on the real output against the real "
+                 "`knut format` of the target; repeated runs under perturbed schedules must be identical.",
+        "note": "Trusted: Lean kernel; axioms propext, Classical.choice, Quot.sound. float64: the code compares sums of logarithms, the model exact products; when the exact scores of the best "
+                "candidates differ by less than 1e-9 (relative) the code's choice is accepted if it is one of them (op c15tol; counted as tag near-tie-other-choice). unicode.ToLower / IsSpace are "
+                "modelled by tables compared with the Go functions on every code point in each run. The include graph (ParseFileRecursively) is resolved by the harness, the model receives the files "
+                "in arrival order (order-independence is a theorem; the concurrent loader is C19's subject). cobra flag parsing, atomic.WriteFile (C18) not modelled.",
+        "rule": "streams: unicode (all code points), tokens (strings.Fields/ToLower on random and malformed UTF-8), corpus, infer (training: empty / no transactions / one account pair / "
+                "tie-rich repeated transactions / 1-4 files with nested and repeated includes / bookings with macros and the placeholder; target: placeholder on credit, debit, both, mixed, none, "
+                "several bookings, other directives and comments mentioning the placeholder, odd layouts; placeholder: default, custom, Unicode, macro, empty, not-an-account, equal to a training "
+                "account), malformed (byte mutations of target/training), cli (subprocess: stdout, --inplace, training file = target file, missing include, 5/20 repeated runs with KNUT_VERIF_SEED). "
+                "class = (outcome, placeholder kind, number of placeholder fields per side, replaced/kept, sizes, generator kinds).",
+        "assumptions": ["scores closer than 1e-9 relative are treated as ties the float evaluation may break either way",
+                        "every score the code computes is finite (logarithms of positive ratios), so the first candidate always beats -Inf"],
     },
 }
 
